@@ -177,6 +177,27 @@ func (w *World) Exec(op Op, ctx context.Context) {
 			val, err = c.P.Rev(ctx, op.Tok)
 		case "reader":
 			val, err = c.P.ReadAll(ctx, op.Tok, bytes.NewReader(Payload(op.Tok, op.Size)))
+		case "notifyrev":
+			err = c.P.NotifyRev(ctx, op.Tok)
+		case "subf":
+			var cf <-chan float64
+			cf, err = c.P.SubF(ctx, op.Tok)
+			if err == nil && cf != nil {
+				st := e.Sub(op.Tok)
+				st.mu.Lock()
+				st.Handed = true
+				st.HandedAt = e.S.Step()
+				st.mu.Unlock()
+				ci := make(chan int)
+				id := simrt.Spawn("subf-client-adapter")
+				go simrt.RunG(id, func() {
+					defer close(ci)
+					for v := range cf {
+						ci <- int(v)
+					}
+				})
+				w.consume(op, ci)
+			}
 		case "subt":
 			var ct <-chan SubElem
 			ct, err = c.P.SubT(ctx, op.Tok)
